@@ -14,6 +14,10 @@ def register(COMPONENTS, g):
         return comp_generic("graph", tier, seed, NPROC, [], "graph", 900 if tier == "quick" else 3000)
     COMPONENTS["graph"] = comp_graph
 
+    def comp_runcache(tier, seed):
+        return comp_generic("runcache", tier, seed, NPROC, [], "runcache", 1200 if tier == "quick" else 3300)
+    COMPONENTS["runcache"] = comp_runcache
+
 
 def register_props(PROPS, g):
     hash_rule = ("real files under a private root: all permutations of small base lists (with duplicates and directories), "
@@ -26,6 +30,22 @@ def register_props(PROPS, g):
                                     "C04_injective additionally assumes the (hash ++ path) items in play are prefix-free and non-empty (necessary for the code as written, see DESIGN.md C04)",
                                     "the executable model uses a Gallina SHA-256 (Sha256.v), compared with crypto/sha256 through every digest of this run"],
                     "trusted_extra": ["os.Open/Stat/io.Copy are abstracted as a map path -> Regular content | Directory | Unreadable"]}
+    rc_rule = ("histories applied to a real project directory through parser -> file.New -> SpokFile.Run with a recording runner: "
+               "bounded-exhaustive op sequences over one 2-task spokfile (edits of 2 files x 2 contents, runs, forced runs, failing commands, cache removal, "
+               "kill during a task, torn cache file) and random histories to length 25 over 5 spokfile shapes mixing literal, glob and task dependencies; "
+               "after every op the run outcome, executed tasks and the cache file's per-task state are compared with the model")
+    rc_assume = ["the digest is an abstract function with decidable equality that never returns the empty string (C04 ties it to SHA-256)",
+                 "task commands do not modify dependency files during a run; glob expansion is 'the candidates that exist' (C05)",
+                 "a write of the cache file is truncate-then-write: a kill in between leaves no valid JSON (observed through every torn-file case)"]
+    rc_tb = ["the cache file is abstracted to Missing | Corrupt | Good(map); encoding/json is not modelled",
+             "kills are reproduced in-process by a runner that panics while a task's command is executing, plus truncation of the cache file; "
+             "a kill between the end of a command and the write that records it is covered by the theorem only"]
+    for pid, orc, nt in (("C01", ["C01"], "histories with at least two run operations"),
+                         ("C02", ["C02"], "histories with at least two run operations"),
+                         ("C14", ["C14"], "histories with at least two run operations"),
+                         ("C10", ["C10", "C01"], "histories with at least two run operations")):
+        PROPS[pid] = {"components": ["runcache"], "oracle": orc, "decode": None, "nontrivial": ("distinct_nontrivial", nt),
+                      "rule": rc_rule, "assumptions": rc_assume, "trusted_extra": rc_tb}
     PROPS["C03"] = {"components": ["graph"], "oracle": ["C03"], "decode": None,
                     "nontrivial": ("distinct_nontrivial", "cases whose selected task set (closure of the request) has at least two tasks"),
                     "rule": "spokfiles generated from dependency graphs, parsed, loaded with file.New and run with SpokFile.Run and a recording runner; "
